@@ -5,8 +5,8 @@ From Coq Require Import List NArith ZArith Bool Lia Arith.
 From ApiFu Require Import Ws.WsTypes Ws.WsSpec Ws.WsModel Ws.WsProofs.
 Import ListNotations.
 
-Notation tr := (trace false false).
-Notation fin := (final false false).
+Notation tr := (trace false false false).
+Notation fin := (final false false false).
 
 (** ** ack first *)
 Lemma chk_ack_first_prop p fs : chk_ack_first p fs = true ->
@@ -35,10 +35,10 @@ Proof.
   induction t as [|g t IH]; intros H pre e post E Op.
   - destruct pre; discriminate.
   - destruct pre as [|g' pre]; simpl in E; injection E as -> E.
-    + exfalso. destruct e as [f|f ow|b|n i d|n|n|n|n|n|z| |]; simpl in *; try discriminate.
+    + exfalso. destruct e as [f|f ow|b|n i d|n|n|n|n|n|z| | |]; simpl in *; try discriminate.
       destruct f; simpl in *; discriminate.
     + subst t.
-      destruct g' as [f|f ow|b|n i d|n|n|n|n|n|z| |]; simpl in H; try discriminate;
+      destruct g' as [f|f ow|b|n i d|n|n|n|n|n|z| | |]; simpl in H; try discriminate;
         try (destruct (IH H pre e post eq_refl Op) as (o & Ho); exists o; now right).
       destruct f; simpl in H; try discriminate;
         try (destruct (IH H pre e post eq_refl Op) as (o & Ho); exists o; now right).
@@ -53,7 +53,7 @@ Proof.
   - destruct pre as [|g' pre]; simpl in E; injection E as -> E.
     + simpl in H. destruct k; [discriminate|right; lia].
     + subst t. simpl in H.
-      destruct g' as [f|f ow|b|n i d|n|n|n|n|n|z| |];
+      destruct g' as [f|f ow|b|n i d|n|n|n|n|n|z| | |];
         try (destruct (IH _ H pre o post eq_refl) as [X|X]; [left; now right|now right]).
       * destruct f; try (destruct (IH _ H pre o post eq_refl) as [X|X]; [left; now right|now right]).
         destruct k; [discriminate|]. destruct (IH _ H pre o post eq_refl) as [X|X]; [left; now right|right; lia].
@@ -85,12 +85,12 @@ Proof.
   - apply handle_stop_opish in B as [Op _]. apply (proj1 (forallb_forall _ _) Op) in I. discriminate.
 Qed.
 
-Lemma step_init_true pc ks p s l :
-  In (VInit true) (snd (step pc ks p s l)) -> exists id pl, l = LFrame (Msg TInit id pl) /\ init_ok pl = true.
+Lemma step_init_true pc ks ke p s l :
+  In (VInit true) (snd (step pc ks ke p s l)) -> exists id pl, l = LFrame (Msg TInit id pl) /\ init_ok pl = true.
 Proof.
-  unfold step. destruct (react pc ks p s l) as [s1 o1] eqn:Re. simpl. intro I.
+  unfold step. destruct (react pc ks ke p s l) as [s1 o1] eqn:Re. simpl. intro I.
   unfold react in Re. destruct (closed s); [injection Re as _ <-; destruct I|].
-  destruct l as [f|n|n|e].
+  destruct l as [f|n|n|e|].
   - destruct (handle pc ks p s f) as [s2 o2] eqn:H. injection Re as _ <-.
     destruct I as [X|I]; [discriminate|]. destruct (handle_init_true _ _ _ _ _ _ _ H I) as (id & pl & -> & IO). eauto.
   - destruct (emit_src n (srcs s)) as [r o2] eqn:E. injection Re as _ <-.
@@ -104,6 +104,8 @@ Proof.
     + destruct A7 as [->| ->]; [destruct I|destruct I as [X|[]]; discriminate].
     + discriminate.
     + apply in_app_or in I as [I|[I|[]]]; [|discriminate]. apply (proj1 (forallb_forall _ _) SA) in I. discriminate.
+  - injection Re as _ <-. destruct I as [X|I]; [discriminate|].
+    destruct p; [destruct (did_init s || ke)|]; simpl in I; try contradiction; destruct I as [X|[]]; discriminate.
 Qed.
 
 Lemma init_true_label p ls :
@@ -112,7 +114,7 @@ Proof.
   induction ls as [|l ls IH] using rev_ind; [intros []|].
   rewrite trace_snoc. intro I. apply in_app_or in I as [I|I].
   - destruct (IH I) as (id & pl & A & B). exists id, pl. split; [apply in_or_app; now left|exact B].
-  - destruct (step_init_true _ _ _ _ _ I) as (id & pl & -> & B). exists id, pl. split; [apply in_or_app; right; now left|exact B].
+  - destruct (step_init_true _ _ _ _ _ _ I) as (id & pl & -> & B). exists id, pl. split; [apply in_or_app; right; now left|exact B].
 Qed.
 
 (** operations sent on a connection on which no init was accepted are not executed: without an
@@ -129,11 +131,11 @@ Proof.
 Qed.
 
 (** ** bookkeeping: the clock, and when the connection is closed *)
-Lemma step_clock pc ks p s l : clock (fst (step pc ks p s l)) = S (clock s).
+Lemma step_clock pc ks ke p s l : clock (fst (step pc ks ke p s l)) = S (clock s).
 Proof.
-  unfold step. destruct (react pc ks p s l) as [s1 o1] eqn:Re. simpl. f_equal.
+  unfold step. destruct (react pc ks ke p s l) as [s1 o1] eqn:Re. simpl. f_equal.
   unfold react in Re. destruct (closed s); [now injection Re as <- _|].
-  destruct l as [f|n|n|e].
+  destruct l as [f|n|n|e|].
   - destruct (handle pc ks p s f) as [s2 o2] eqn:H. injection Re as <- _.
     destruct (handle_cases _ _ _ _ _ _ _ H) as [(_ & _ & C & _)|[(id & d & _ & HS)|(id & _ & HS)]]; [exact C| |].
     + unfold handle_start in HS.
@@ -151,6 +153,7 @@ Proof.
   - destruct (begin_closing (end_code e) s) as [s2 o2] eqn:B.
     destruct (begin_closing_neutral _ _ _ _ B) as (_ & _ & C & _).
     unfold handle_close in Re. destruct (stop_all (subs s2) (srcs s2)). now injection Re as <- _.
+  - now injection Re as <- _.
 Qed.
 
 Lemma clock_final p ls : clock (fin p ls) = List.length ls.
@@ -159,12 +162,12 @@ Proof.
   rewrite final_snoc, step_clock, IH, app_length. simpl. lia.
 Qed.
 
-Lemma step_closed pc ks p s l :
-  closed (fst (step pc ks p s l)) = closed s || match l with LEnd _ => true | _ => false end.
+Lemma step_closed pc ks ke p s l :
+  closed (fst (step pc ks ke p s l)) = closed s || match l with LEnd _ => true | _ => false end.
 Proof.
-  unfold step. destruct (react pc ks p s l) as [s1 o1] eqn:Re. simpl. change (closed (tick s1)) with (closed s1).
+  unfold step. destruct (react pc ks ke p s l) as [s1 o1] eqn:Re. simpl. change (closed (tick s1)) with (closed s1).
   unfold react in Re. destruct (closed s) eqn:Cl; [now injection Re as <- _|]. simpl.
-  destruct l as [f|n|n|e].
+  destruct l as [f|n|n|e|].
   - destruct (handle pc ks p s f) as [s2 o2] eqn:H. injection Re as <- _.
     destruct (handle_cases _ _ _ _ _ _ _ H) as [(_ & _ & _ & C & _)|[(id & d & _ & HS)|(id & _ & HS)]]; [congruence| |].
     + apply handle_start_out in HS as [X _]. congruence.
@@ -173,6 +176,7 @@ Proof.
   - destruct (end_src n (srcs s)). injection Re as <- _. exact Cl.
   - destruct (begin_closing (end_code e) s) as [s2 o2]. unfold handle_close in Re.
     destruct (stop_all (subs s2) (srcs s2)). now injection Re as <- _.
+  - injection Re as <- _. exact Cl.
 Qed.
 
 (** the connection is closed exactly when an ending has occurred: every ending — client close,
@@ -194,7 +198,7 @@ Theorem ws_query_one_result_one_complete p ls n id d :
   count (is_start n) (tr p ls) = 1 /\
   count (is_exec n) (tr p ls) = (match d with DInvalid => 0 | _ => 1 end).
 Proof.
-  intros H Sl. destruct (reach_inv _ _ _ _ _ (run_reach false false p ls)) as [I _].
+  intros H Sl. destruct (reach_inv _ _ _ _ _ _ (run_reach false false false p ls)) as [I _].
   pose proof (i_started _ _ _ _ I n id d H) as SO. unfold start_ok, view in SO.
   destruct d; try discriminate; injection SO as -> -> _ _ _ _ ->; auto.
 Qed.
@@ -209,7 +213,7 @@ Proof.
   intros D DI Cl.
   set (l := LFrame (Msg (match p with PWs => TStart | PTws => TSubscribe end) id pl)).
   replace (ls1 ++ l :: ls2) with ((ls1 ++ [l]) ++ ls2) by (rewrite <- app_assoc; reflexivity).
-  destruct (trace_app false false p (ls1 ++ [l]) ls2) as (rest & ->). apply in_or_app. left.
+  destruct (trace_app false false false p (ls1 ++ [l]) ls2) as (rest & ->). apply in_or_app. left.
   rewrite trace_snoc. apply in_or_app. right.
   unfold step, react. rewrite Cl. unfold l. rewrite <- clock_final with (p := p).
   destruct p; simpl; rewrite DI, D; unfold handle_start;
@@ -223,16 +227,16 @@ Proof.
          destruct (stop_src n (srcs (fin _ ls1))); now injection HS as <- _).
 Qed.
 
-Lemma did_init_stays p s l : did_init s = true -> did_init (fst (step false false p s l)) = true.
+Lemma did_init_stays p s l : did_init s = true -> did_init (fst (step false false false p s l)) = true.
 Proof.
-  intro DI. destruct (step false false p s l) as [s' o] eqn:St.
+  intro DI. destruct (step false false false p s l) as [s' o] eqn:St.
   destruct (step_conn false p _ _ _ _ St) as (_ & _ & _ & K). rewrite DI in K. exact K.
 Qed.
-Lemma did_init_run p s ls : did_init s = true -> did_init (fst (run_from false false p s ls)) = true.
+Lemma did_init_run p s ls : did_init s = true -> did_init (fst (run_from false false false p s ls)) = true.
 Proof.
   revert s. induction ls as [|l ls IH]; intros s DI; simpl; [exact DI|].
-  destruct (step false false p s l) as [s1 o] eqn:St. pose proof (did_init_stays p s l DI) as X. rewrite St in X.
-  specialize (IH s1 X). destruct (run_from false false p s1 ls). exact IH.
+  destruct (step false false false p s l) as [s1 o] eqn:St. pose proof (did_init_stays p s l DI) as X. rewrite St in X.
+  specialize (IH s1 X). destruct (run_from false false false p s1 ls). exact IH.
 Qed.
 
 (** once an init frame has been accepted on a connection that had not ended, the connection is
@@ -242,12 +246,12 @@ Theorem ws_initialised_after_accepted_init p ls1 id pl ls2 :
   did_init (fin p (ls1 ++ LFrame (Msg TInit id pl) :: ls2)) = true.
 Proof.
   intros IO Cl. unfold final, run. rewrite run_from_app.
-  destruct (run_from false false p init_st ls1) as [s1 o1] eqn:R1.
+  destruct (run_from false false false p init_st ls1) as [s1 o1] eqn:R1.
   assert (E : s1 = fin p ls1) by (unfold final, run; now rewrite R1). simpl.
-  destruct (step false false p s1 (LFrame (Msg TInit id pl))) as [s2 o2] eqn:St.
+  destruct (step false false false p s1 (LFrame (Msg TInit id pl))) as [s2 o2] eqn:St.
   assert (DI : did_init s2 = true).
   { unfold step, react in St. rewrite E, Cl in St. destruct p; simpl in St; rewrite IO in St; now injection St as <- _. }
-  pose proof (did_init_run p s2 ls2 DI) as X. destruct (run_from false false p s2 ls2). exact X.
+  pose proof (did_init_run p s2 ls2 DI) as X. destruct (run_from false false false p s2 ls2). exact X.
 Qed.
 
 (** ** subscriptions: results 1..k, then exactly one complete once stopped or ended, then nothing *)
@@ -257,7 +261,7 @@ Theorem ws_sub_complete_once_then_silent p ls n :
     In (VStart n id DSub) (tr p ls) /\
     owned n (tr p ls) = evs id n k ++ (if stopped_or_ended n (tr p ls) then [SComplete id] else []).
 Proof.
-  intro H. destruct (reach_inv _ _ _ _ _ (run_reach false false p ls)) as [I _].
+  intro H. destruct (reach_inv _ _ _ _ _ _ (run_reach false false false p ls)) as [I _].
   destruct (subscribed_has_source _ _ _ _ n I) as (x & Hx & Ex).
   { assert (0 < count (is_subscribe n) (tr p ls)); [|lia]. apply count_pos_iff. exists (VSubscribe n).
     split; [exact H|]. simpl. apply Nat.eqb_refl. }
@@ -274,12 +278,24 @@ Proof. induction k as [|k IH]; [reflexivity|]. simpl. rewrite app_length, IH. si
 (** ** ping / pong (graphql-transport-ws) *)
 Theorem ws_ping_pong ls id pl :
   closed (fin PTws ls) = false ->
-  snd (step false false PTws (fin PTws ls) (LFrame (Msg TPing id pl))) = [VRecv (Msg TPing id pl); VSend SPong None].
+  snd (step false false false PTws (fin PTws ls) (LFrame (Msg TPing id pl))) = [VRecv (Msg TPing id pl); VSend SPong None].
 Proof. intro Cl. unfold step, react. rewrite Cl. reflexivity. Qed.
 
 (** over a whole run: one pong per ping, in order, and no pong that answers nothing *)
 Theorem ws_pongs_match_pings p ls : chk_pongs p 0 (tr p ls) = true.
 Proof. apply pongs_all. Qed.
+
+(** ** the write loop's periodic keep-alive: a tick writes a pong (graphql-transport-ws, where a pong
+    may be sent at any time), a ka in graphql-ws exactly when an init has been accepted — so by
+    [ws_ack_first], which quantifies over runs with ticks anywhere, never before the first ack *)
+Theorem ws_tick_keepalive p ls :
+  closed (fin p ls) = false ->
+  snd (step false false false p (fin p ls) LTick) =
+  VTick :: match p with
+           | PWs => if did_init (fin p ls) then [VSend SKa None] else []
+           | PTws => [VSend SPong None]
+           end.
+Proof. intro Cl. unfold step, react. rewrite Cl. destruct p; [rewrite orb_false_r|]; reflexivity. Qed.
 
 (** ** every source is stopped at most once, and exactly once when the connection has closed *)
 Theorem ws_stop_exactly_once p ls n :
@@ -287,7 +303,7 @@ Theorem ws_stop_exactly_once p ls n :
   count (is_stop n) (tr p ls) <= 1 /\
   (closed (fin p ls) = true -> count (is_stop n) (tr p ls) = 1).
 Proof.
-  intro H. destruct (reach_inv _ _ _ _ _ (run_reach false false p ls)) as [I [C0 C1]].
+  intro H. destruct (reach_inv _ _ _ _ _ _ (run_reach false false false p ls)) as [I [C0 C1]].
   destruct (subscribed_has_source _ _ _ _ n I) as (x & Hx & Ex).
   { assert (0 < count (is_subscribe n) (tr p ls)); [|lia]. apply count_pos_iff. exists (VSubscribe n).
     split; [exact H|]. simpl. apply Nat.eqb_refl. }
@@ -300,7 +316,7 @@ Qed.
 (** Stop() is only ever called on a source that was started *)
 Theorem ws_stop_only_started p ls n : In (VStop n) (tr p ls) -> In (VSubscribe n) (tr p ls).
 Proof.
-  intro H. destruct (reach_inv _ _ _ _ _ (run_reach false false p ls)) as [I _].
+  intro H. destruct (reach_inv _ _ _ _ _ _ (run_reach false false false p ls)) as [I _].
   destruct (subscribed_has_source _ _ _ _ n I) as (x & Hx & Ex).
   { assert (0 < count (is_stop n) (tr p ls)); [|lia]. apply count_pos_iff. exists (VStop n).
     split; [exact H|]. simpl. apply Nat.eqb_refl. }
@@ -314,7 +330,7 @@ Theorem ws_deregistered p ls :
   (closed (fin p ls) = true -> registered (fin p ls) = false /\ count is_dereg (tr p ls) = 1) /\
   (closed (fin p ls) = false -> registered (fin p ls) = true /\ count is_dereg (tr p ls) = 0).
 Proof.
-  destruct (reach_inv _ _ _ _ _ (run_reach false false p ls)) as [_ [C0 C1]]. split; intro Cl.
+  destruct (reach_inv _ _ _ _ _ _ (run_reach false false false p ls)) as [_ [C0 C1]]. split; intro Cl.
   - destruct (C1 Cl) as (A & _ & _ & B & _). auto.
   - destruct (C0 Cl) as (A & _ & B). auto.
 Qed.
@@ -324,7 +340,7 @@ Theorem ws_no_start_dropped p ls pre n id d post :
   tr p ls = pre ++ VStart n id d :: post -> is_sublike d = true ->
   served n (tr p ls) = true \/ busy id pre = true.
 Proof.
-  intros E Sl. destruct (reach_ign p _ _ (run_reach false false p ls) pre _ post n id d E eq_refl Sl); auto.
+  intros E Sl. destruct (reach_ign p _ _ (run_reach false false false p ls) pre _ post n id d E eq_refl Sl); auto.
 Qed.
 
 (** ** the oracle of the correspondence check accepts every trace of the model *)
@@ -335,12 +351,17 @@ Proof. apply model_meets_spec. Qed.
 From Coq Require Import String.
 Open Scope string_scope.
 Theorem ws_ping_refuted_before_fix :
-  exists ls, spec_verdict PTws (trace true false PTws ls) = Some "ping-pong".
+  exists ls, spec_verdict PTws (trace true false false PTws ls) = Some "ping-pong".
 Proof. exists [LFrame (Msg TInit 0 PayNone); LFrame (Msg TPing 0 PayNone)]. vm_compute. reflexivity. Qed.
 
 Theorem ws_id_reuse_refuted_before_fix :
-  exists ls, spec_verdict PWs (trace false true PWs ls) = Some "stale-id-after-source-end".
+  exists ls, spec_verdict PWs (trace false true false PWs ls) = Some "stale-id-after-source-end".
 Proof.
   exists [LFrame (Msg TInit 0 PayNone); LFrame (Msg TStart 1 (PayDoc DSub)); LSrcEnd 1; LFrame (Msg TStart 1 (PayDoc DSub))].
   vm_compute. reflexivity.
 Qed.
+
+(** the keep-alive defect: the ticker ran from [Serve], a period without init sufficed *)
+Theorem ws_keepalive_refuted_before_fix :
+  exists ls, spec_verdict PWs (trace false false true PWs ls) = Some "ack-not-first".
+Proof. exists [LTick; LFrame (Msg TInit 0 PayNone)]. vm_compute. reflexivity. Qed.
